@@ -88,6 +88,15 @@ add("C04", "other",
     "Decided each run with Sem as oracle on scoping-heavy generated sessions and by fingerprinting globals / caller variables "
     "around calls on the real code.", COMMON_NOTE, DIFF)
 
+add("C02", "other",
+    "Partial. Proved in Coq on the definitional semantics (PropC02.v): a naked yield is the identity; a one-iterator loop is "
+    "exactly bind / body / only-then-resume (an explicit recursion over the generator's resumptions); no yield means no body and "
+    "nil; return in the body abandons the generator; errors end the statement; bodies run in yield order. Not proved: that the "
+    "VM's context instructions implement this. Decided each run on generator-heavy sessions (towers of map/filter/take/chain/zip "
+    "to depth 4, recursive generators, nested and multi-iterator loops, early returns, deep recursion, closure instances with "
+    "loops within one statement) compared inside Coq with Sem and the VM model, including interleaved output and the loop "
+    "variables after the loop.", COMMON_NOTE + " Axiom used by the for-loop equation: functional_extensionality_dep (standard library).", DIFF)
+
 PENDING_REASON = "check under construction in this round (the technique applies; see DESIGN.md section 6); not yet claimed"
 
 
